@@ -75,7 +75,7 @@ def main():
         for pid in props:
             for seed in a.seeds.split(","):
                 t0 = time.time()
-                r = sh([str(VERIF / "check"), pid, a.tier], env=dict(os.environ, VERIF_REPO=str(scratch), VERIF_SEED=seed))
+                r = sh([str(VERIF / "check"), pid, a.tier], env=dict(os.environ, VERIF_REPO=str(scratch), VERIF_SEED=seed, VERIF_EVIDENCE_DIR=str(tmp / "evidence"), VERIF_REPLAY_DIR=str(tmp / "replays")))
                 viol = [l for l in r.stdout.splitlines() if l.startswith("VIOLATION")]
                 msg = [l for l in r.stdout.splitlines() if l.startswith("violation in")]
                 meta["ran"].append({"check": f"./check {pid} {a.tier}", "seed": int(seed), "exit": r.returncode, "violation_line": bool(viol), "wall_s": round(time.time() - t0, 1), "message": (msg[0][:400] if msg else (r.stderr.strip().splitlines() or [""])[-1][:300])})
